@@ -1,5 +1,7 @@
-import Driver.Util
-/-! `drv_race`: not built yet -/
+import Driver.RaceDrv
+open Driver
+
 def main : IO UInt32 := do
-  IO.eprintln "drv_race: engine not implemented"
-  return 2
+  let lines ← readLines (← IO.getStdin) #[]
+  RaceDrv.main lines
+  return 0
